@@ -1017,3 +1017,11 @@ def _m78():
                 state = _State.between
             else:
                 args[-1] += value""")
+
+
+@mutant('sh_jbos_escaped_last_only')
+def _m79():
+    # shell/syntax.py Writer.write: only the last piece of a joined string decides about quoting
+    from bfg9000.shell import syntax as shsyntax
+    _patch_source(shsyntax.Writer, 'write', "escaped |= self.write(i, syntax, shell_quote)",
+                  "escaped = self.write(i, syntax, shell_quote)")
